@@ -120,6 +120,9 @@ def net_part(ck, tier, rng):
     bad = run_shards(PID + "_net", sprops.HEADER, "sched_case", "check_sched", terms, shard_size=4)
     # on how many of them the schedule-explicit model Model/NSim.v (two answer strategies) was compared with Model/Sim.v
     nsim_scope = run_shards(PID + "_nsim", sprops.HEADER, "sched_case", "nsim_scope", terms, shard_size=8)
+    # ... and the nested schedule-explicit model Model/NNSim.v (nested cases, interrupts of devices at any depth;
+    # marker 2: the configuration also lies in the scope of the nested schedule-independence theorem, decided in Coq)
+    nnsim_scope = run_shards(PID + "_nnsim", sprops.HEADER + "\nFrom TV Require Import Oracle.ScopeCheck.", "sched_case", "nnsim_scope", terms, shard_size=8)
     deliveries = choices = 0
     pol = {}
     for case, (ref, delayed) in zip(cases, groups):
@@ -132,7 +135,9 @@ def net_part(ck, tier, rng):
     ck.coverage.update(net_simulations=len(cases), net_delayed_runs=sum(len(c["schedules"]) for c in cases), net_policies=pol,
                        net_deliveries=deliveries, net_scheduling_choices=choices, net_simultaneous_stimuli=nsim,
                        net_nested=sum(1 for c in cases if len(c["cfg"]) > 1), net_disagreements=len(bad),
-                       net_flat_cases_compared_with_schedule_explicit_model=len(nsim_scope))
+                       net_flat_cases_compared_with_schedule_explicit_model=len(nsim_scope),
+                       net_nested_cases_compared_with_nested_schedule_explicit_model=len(nnsim_scope),
+                       net_nested_cases_in_scope_of_nested_schedule_independence_theorem=sum(1 for v in nnsim_scope.values() if 2 in v))
     reported = False
     # a participant that raises or a simulation that stalls under some schedule only
     for i, (case, (ref, delayed)) in enumerate(zip(cases, groups)):
@@ -172,7 +177,9 @@ def main(tier, seed):
                          ["Model/Ticker.v", "Oracle/TickerOracle.v", "Model/Sim.v", "Oracle/SimCheck.v", "Oracle/SimOracle.v",
                           "Proofs/TickerP.v", "Model/NSim.v", "Proofs/LatestP.v", "Proofs/EqvP.v", "Proofs/InlineP.v", "Proofs/InlineLoopP.v",
                           "Proofs/InlineScopeP.v", "Proofs/InlineLatestP.v", "Proofs/WakeWfP.v", "Proofs/ExtentP.v", "Proofs/Confluence2P.v",
-                          "Proofs/ScheduleP.v", "Proofs/SimTraceP.v", "Model/SimTime.v", "Model/Inline.v", "Proofs/ParDevP.v", "Proofs/FuelP.v", "Props/C08.v"],
+                          "Proofs/ScheduleP.v", "Proofs/SimTraceP.v", "Model/SimTime.v", "Model/Inline.v", "Proofs/ParDevP.v", "Proofs/FuelP.v",
+                          "Proofs/Confluence3P.v", "Model/NNSim.v", "Proofs/NScheduleP.v", "Proofs/NDetP.v", "Proofs/NDetScopeP.v", "Proofs/NDetXP.v", "Model/Interrupts.v", "Oracle/ScopeCheck.v",
+                          "Proofs/FrameP.v", "Proofs/NonInterfP.v", "Proofs/NonInterfLoopP.v", "Props/C08.v"],
                          "schedule independence", extra=net_part)
 
 
